@@ -112,6 +112,7 @@ def shards(tier, seed):
     for ti in range(len(TEMPLATES)):
         for tok in ("AC", "HS"):
             out += dd.residue_shards("fragedit-" + tok, "fe", tok, 16 if d["FE"] > 1 else 2, {"t": ti, "edits": d["FE"]})
+    out += dd.residue_shards("pumped-AC", "pump", "AC", 16)
     for ti in range(len(CHAR_TEMPLATES)):
         for tok in ("AC", "HS"):
             out += dd.residue_shards("charedit-" + tok, "ce", tok, 16 if d["CE"] > 1 else 2, {"t": ti, "edits": d["CE"]})
@@ -119,6 +120,8 @@ def shards(tier, seed):
 
 
 def cases_of(sh):
+    if sh["kind"] == "pump":
+        return pumped_cases(sh)
     if sh["kind"] == "seq":
         return dd.seq_cases(sh, ALPHABETS)
     if sh["kind"] == "fe":
@@ -126,6 +129,21 @@ def cases_of(sh):
     else:
         gen = dd.char_mutations(CHAR_TEMPLATES[sh["t"]], CHARS, sh["edits"])
     return ({"part": sh["part"], "tok": sh["tok"], "text": t} for t in dd.sliced(gen, sh["r"], sh["n"]))
+
+
+PUMP_FILLERS = [" hello", "; 2 F.2d 2", " Id. at 5.", " Bar at 9,", ". Foo, supra, at 3", " 1 U.S. at 5;", "\n"]
+PUMP_COPIES = [100, 300]
+
+
+def pumped_cases(sh):
+    """A short head (<= 2 fragments) followed by many copies of one filler fragment: long documents whose
+    interesting part is short (size-dependent code paths)."""
+    alpha = A0
+    heads = [""] + list(alpha) + [a + b for a in alpha[:16] for b in alpha[:16]]
+    for head in heads[sh["r"] :: sh["n"]]:
+        for f in PUMP_FILLERS:
+            for n in PUMP_COPIES:
+                yield {"part": sh["part"], "tok": sh["tok"], "text": head + f * n}
 
 
 def run_shard(sh):
